@@ -11,7 +11,11 @@
 // values, ErrTooLarge on both sides or on neither) and the observable state
 // (Len, Bytes) of both are compared. The harness also writes through the slices
 // that Bytes and Next return (documented to alias the contents) and scribbles
-// over every slice it handed to Write after the call returned.
+// over every slice it handed to Write after the call returned. Strings that
+// went into or came out of tex.Buffer are kept and compared after every later
+// step (keeper); further tex.Buffers from the same constructor call stand by
+// and must keep their own contents (bystander). Part "long" (long.go) runs the
+// same executor on few long or multi-megabyte histories.
 package c11texbuf
 
 import (
@@ -40,6 +44,11 @@ const Property = "C11"
 type Case struct {
 	Ctor Ctor `json:"ctor"`
 	Ops  []Op `json:"ops"`
+	// Side: number of bystander tex.Buffers built by the same constructor call (at least one is always built);
+	// the "Side" operations write to them. Big: the executor admits payloads, reads and Grow up to maxBig
+	// instead of maxPayload (part "long").
+	Side int  `json:"side,omitempty"`
+	Big  bool `json:"big,omitempty"`
 }
 
 // Ctor says how both buffers are made.
@@ -69,6 +78,9 @@ type Ctor struct {
 //	ReadFrom           : R (scripted reader)
 //	WriteTo            : W (scripted writer)
 //	ReWrite            : pos N, payload(P,L,S)
+//	WriteSelf          : Write(b.Bytes()[lo:hi]) with lo = min(N, Len), hi = min(lo+L, Len): the argument is a
+//	                     part of the buffer's own unread bytes (each buffer is given its own)
+//	Side               : payload(P,L,S) is written to bystander N (mod their number), not to the buffers under test
 //	ReadByte, ReadRune, UnreadByte, UnreadRune, Reset, Len, Bytes, String : none
 type Op struct {
 	K string   `json:"k"`
@@ -114,6 +126,8 @@ const (
 
 const (
 	maxPayload  = 1 << 16 // executor guard: larger payloads / read sizes are skipped
+	maxBig      = 4 << 20 // the same guard in a Case with Big set
+	maxSide     = 1 << 12 // a bystander is not written beyond this length
 	maxGrowSane = 1 << 16 // Grow(n) is executed for n <= maxGrowSane or n >= minGrowHuge (fails at once, allocates nothing)
 	minGrowHuge = 1 << 62
 	sentinel    = 0xA5
@@ -281,6 +295,7 @@ type outcome struct {
 	nums     []int64 // numeric results in declaration order
 	hasData  bool
 	data     []byte // byte-valued result (destination of Read incl. the untouched tail, Next, Bytes, String)
+	str      string // the string itself: the result of String, the argument of WriteString
 	hasErr   bool
 	err      error
 	sink     []byte // what the scripted writer was given
@@ -317,7 +332,14 @@ func apply(b buffer, op *Op, onRead func()) (o outcome) {
 			p[i] = ^p[i]
 		}
 	case "WriteString":
-		n, err := b.WriteString(string(payload(op.P, op.L, op.S)))
+		s := heapString(payload(op.P, op.L, op.S))
+		o.str = s
+		n, err := b.WriteString(s)
+		o.nums, o.hasErr, o.err = []int64{int64(n)}, true, err
+	case "WriteSelf":
+		d := b.Bytes()
+		lo, hi := selfRange(op, len(d))
+		n, err := b.Write(d[lo:hi])
 		o.nums, o.hasErr, o.err = []int64{int64(n)}, true, err
 	case "WriteByte":
 		err := b.WriteByte(op.S)
@@ -370,9 +392,30 @@ func apply(b buffer, op *Op, onRead func()) (o outcome) {
 		o.hasData, o.data = true, append([]byte{}, d...)
 		scribble(d, op.X) // "the slice aliases the buffer content at least until the next buffer modification"
 	case "String":
-		o.hasData, o.data = true, []byte(b.String())
+		o.str = b.String()
+		o.hasData, o.data = true, []byte(o.str)
 	}
 	return o
+}
+
+// heapString builds a string whose bytes are in memory of its own on the heap. (The Go runtime serves
+// one-byte strings from a static table that it also uses for other purposes: a string of two bytes is built
+// and cut, so that a buffer which wrongly adopts the memory of a string it was handed - and then lets the
+// harness write through Bytes() into it - changes the one string that the harness watches and nothing else.)
+func heapString(b []byte) string {
+	if len(b) == 0 {
+		return ""
+	}
+	x := make([]byte, len(b)+1)
+	copy(x, b)
+	return string(x)[:len(b)]
+}
+
+// selfRange is the part of `length` unread bytes that WriteSelf hands to Write.
+func selfRange(op *Op, length int) (lo, hi int) {
+	lo = min(max(op.N, 0), length)
+	hi = min(lo+max(op.L, 0), length)
+	return lo, hi
 }
 
 // scribble writes through a slice that a buffer returned: every byte changes.
@@ -494,6 +537,13 @@ type driver struct {
 	// them, the harness writes the model's bytes into the reference (through
 	// Bytes(), documented to alias) before the states are compared.
 	prefixDirty bool
+	// clean: nothing was consumed since the construction or the last Reset / Truncate(0): no consumed bytes
+	// are in front of the unread part on either side, whatever the growth policy, so no write can slide the
+	// contents down. Only then is WriteSelf issued: a slide-down moves the bytes its argument aliases before
+	// they are copied, and what bytes.Buffer then appends depends on its growth policy (when it slides).
+	clean bool
+	// limits of the executor (raised by Case.Big), number of bystanders
+	maxLen, maxGrow, sides int
 }
 
 // settled is called by every operation that sets or clears unread-validity.
@@ -550,8 +600,12 @@ func rewriteModel(unread []byte, off, pos int, p []byte) {
 	}
 }
 
-func newDriver(c *Ctor, measuredCap int) *driver {
-	d := &driver{}
+func newDriver(cs *Case, measuredCap int) *driver {
+	c := &cs.Ctor
+	d := &driver{clean: true, maxLen: maxPayload, maxGrow: maxGrowSane, sides: max(cs.Side, 1)}
+	if cs.Big {
+		d.maxLen, d.maxGrow = maxBig, maxBig
+	}
 	switch c.Kind {
 	case "bytes":
 		d.sh.cap = max(c.L, 0) + max(c.Spare, 0)
@@ -581,15 +635,27 @@ func (d *driver) admit(op *Op, length int) string {
 		if d.sh.unknown {
 			return "ReWrite while the storage layout is not predicted"
 		}
-		if op.N < 0 || op.L < 0 || op.L > maxPayload || op.N+op.L > d.sh.off+length {
+		if op.N < 0 || op.L < 0 || op.L > d.maxLen || op.N+op.L > d.sh.off+length {
 			return "ReWrite beyond the storage"
 		}
 	case "Write", "WriteString", "Read":
-		if op.L < 0 || op.L > maxPayload {
+		if op.L < 0 || op.L > d.maxLen {
 			return op.K + " with an oversize or negative length"
 		}
+	case "WriteSelf":
+		lo, hi := selfRange(op, length)
+		if hi-lo > d.maxLen {
+			return "WriteSelf with an oversize length"
+		}
+		if hi > lo && !d.clean {
+			return "WriteSelf after bytes were consumed (a slide-down would move its argument: the result depends on the growth policy)"
+		}
+	case "Side":
+		if op.L < 0 || op.L > maxSide {
+			return "Side with an oversize or negative length"
+		}
 	case "Grow":
-		if op.N > maxGrowSane && op.N < minGrowHuge {
+		if op.N > d.maxGrow && op.N < minGrowHuge {
 			return "Grow of a size that would really be allocated"
 		}
 	case "ReadFrom":
@@ -616,6 +682,16 @@ func (d *driver) admit(op *Op, length int) string {
 // storage now, including what was written through the slice Next returned).
 func (d *driver) after(op *Op, lb, la int, o *outcome, measured int, before []byte) (labels []string) {
 	s := &d.sh
+	switch op.K {
+	case "Read", "ReadByte", "ReadRune", "Next", "WriteTo":
+		d.clean = false
+	case "Reset":
+		d.clean = true
+	case "Truncate":
+		if op.N == 0 {
+			d.clean = true
+		}
+	}
 	switch op.K {
 	case "Read", "ReadByte", "ReadRune":
 		d.settled()
@@ -660,9 +736,14 @@ func (d *driver) after(op *Op, lb, la int, o *outcome, measured int, before []by
 		default:
 			s.off += lb - la
 		}
-	case "Write", "WriteString", "WriteByte", "WriteRune":
+	case "Write", "WriteString", "WriteByte", "WriteRune", "WriteSelf":
 		d.settled()
-		if n := growRequest(op); n > 0 && !o.panicked {
+		n := growRequest(op)
+		if op.K == "WriteSelf" {
+			lo, hi := selfRange(op, lb)
+			n = hi - lo
+		}
+		if n > 0 && !o.panicked {
 			labels = s.grow(lb, n, measured, false)
 		}
 	case "Grow":
@@ -880,6 +961,12 @@ func (g *genState) pickKind(t *rapid.T) string {
 
 func (g *genState) genOp(t *rapid.T) Op {
 	op := Op{K: g.pickKind(t)}
+	g.fill(t, &op)
+	return op
+}
+
+// fill draws the arguments of an operation whose kind is chosen.
+func (g *genState) fill(t *rapid.T, op *Op) {
 	l := g.ref.Len()
 	switch op.K {
 	case "Write", "WriteString":
@@ -973,7 +1060,6 @@ func (g *genState) genOp(t *rapid.T) Op {
 			op.L = rapid.IntRange(0, off+l-op.N).Draw(t, "rwlen2")
 		}
 	}
-	return op
 }
 
 // advance applies op to the reference with the executor's admission rules.
@@ -982,6 +1068,10 @@ func (g *genState) advance(op *Op) {
 	g.hint = ""
 	lb := g.ref.Len()
 	if g.d.admit(op, lb) != "" {
+		return
+	}
+	if op.K == "Side" {
+		g.hint = prev // the buffers under test are not touched
 		return
 	}
 	if op.K == "ReWrite" {
@@ -1024,7 +1114,7 @@ func (g *genState) advance(op *Op) {
 		if op.N == 0 {
 			g.hint = "fresh"
 		}
-	case "Write", "WriteString":
+	case "Write", "WriteString", "WriteSelf":
 		g.hint = "written"
 	}
 }
@@ -1063,8 +1153,8 @@ func Gen(t *rapid.T) Case {
 		c.Ops = []Op{{K: "String"}}
 		return c
 	}
-	ref, _, _ := construct(&c.Ctor, false)
-	g := &genState{ref: ref, d: newDriver(&c.Ctor, -1)}
+	ref, _, _, _ := construct(&c.Ctor, false)
+	g := &genState{ref: ref, d: newDriver(&c, -1)}
 	if ref.Len() == 0 {
 		g.hint = "fresh"
 	}
@@ -1090,43 +1180,51 @@ func Gen(t *rapid.T) Case {
 // ---------------------------------------------------------------------------
 // executor and oracle
 
-func construct(c *Ctor, withTex bool) (ref *bytes.Buffer, tb *tex.Buffer, skip string) {
-	if c.L < 0 || c.L > maxPayload || c.Spare < 0 || c.Spare > maxPayload || c.Size < 0 || c.Size > maxPayload {
-		return new(bytes.Buffer), new(tex.Buffer), "constructor arguments out of the harness bounds"
+// ctorSlice is the argument of NewBuffer: its own array for every call.
+func ctorSlice(c *Ctor, data []byte) []byte {
+	if len(data) == 0 && c.Spare == 0 {
+		return nil
 	}
-	data := payload(c.P, c.L, c.S)
-	mk := func() []byte {
-		if len(data) == 0 && c.Spare == 0 {
-			return nil
-		}
-		b := make([]byte, len(data), len(data)+c.Spare)
-		copy(b, data)
-		return b
-	}
+	b := make([]byte, len(data), len(data)+c.Spare)
+	copy(b, data)
+	return b
+}
+
+// constructTex makes one tex.Buffer. arg is the string handed to NewBufferString (a string of this call's own,
+// on the heap), "" for the other constructors.
+func constructTex(c *Ctor, data []byte) (tb *tex.Buffer, arg string) {
 	switch c.Kind {
 	case "bytes":
-		ref = bytes.NewBuffer(mk())
-		if withTex {
-			tb = tex.NewBuffer(mk())
-		}
+		return tex.NewBuffer(ctorSlice(c, data)), ""
+	case "string":
+		arg = heapString(data)
+		return tex.NewBufferString(arg), arg
+	case "sized":
+		return tex.NewSizedBuffer(c.Size), ""
+	}
+	return new(tex.Buffer), ""
+}
+
+func construct(c *Ctor, withTex bool) (ref *bytes.Buffer, tb *tex.Buffer, arg, skip string) {
+	if c.L < 0 || c.L > maxPayload || c.Spare < 0 || c.Spare > maxPayload || c.Size < 0 || c.Size > maxPayload {
+		return new(bytes.Buffer), new(tex.Buffer), "", "constructor arguments out of the harness bounds"
+	}
+	data := payload(c.P, c.L, c.S)
+	switch c.Kind {
+	case "bytes":
+		ref = bytes.NewBuffer(ctorSlice(c, data))
 	case "string":
 		ref = bytes.NewBufferString(string(data))
-		if withTex {
-			tb = tex.NewBufferString(string(data))
-		}
 	case "sized":
 		ref = new(bytes.Buffer)
 		ref.Grow(c.Size)
-		if withTex {
-			tb = tex.NewSizedBuffer(c.Size)
-		}
 	default:
 		ref = new(bytes.Buffer)
-		if withTex {
-			tb = new(tex.Buffer)
-		}
 	}
-	return ref, tb, ""
+	if withTex {
+		tb, arg = constructTex(c, data)
+	}
+	return ref, tb, arg, ""
 }
 
 func panicKind(v any) (kind, text string) {
@@ -1150,6 +1248,17 @@ func show(b []byte) string {
 }
 
 func diffBytes(want, got []byte) string { return diffNamed("bytes.Buffer", want, got) }
+
+// diffPair names both sides.
+func diffPair(wn string, want []byte, gn string, got []byte) string {
+	i := 0
+	for i < len(want) && i < len(got) && want[i] == got[i] {
+		i++
+	}
+	lo := max(i-4, 0)
+	return fmt.Sprintf("first difference at index %d: %s …%q, %s …%q; whole: %s %s, %s %s",
+		i, wn, want[lo:min(len(want), i+12)], gn, got[lo:min(len(got), i+12)], wn, show(want), gn, show(got))
+}
 
 func diffNamed(ref string, want, got []byte) string {
 	i := 0
@@ -1181,6 +1290,10 @@ func describe(op *Op) string {
 		}
 	case "ReWrite":
 		return fmt.Sprintf("ReWrite(%d, %s)", op.N, show(payload(op.P, op.L, op.S)))
+	case "WriteSelf":
+		return fmt.Sprintf("Write(b.Bytes()[lo:hi], lo = min(%d, Len), hi = min(lo+%d, Len))", op.N, op.L)
+	case "Side":
+		return fmt.Sprintf("bystander %d: Write(%s)", op.N, show(payload(op.P, op.L, op.S)))
 	}
 	return op.K + "()"
 }
@@ -1287,10 +1400,85 @@ func diffState(ref, tb buffer) string {
 
 func isWriteLike(k string) bool {
 	switch k {
-	case "Write", "WriteString", "WriteByte", "WriteRune", "Grow", "ReadFrom":
+	case "Write", "WriteString", "WriteSelf", "WriteByte", "WriteRune", "Grow", "ReadFrom":
 		return true
 	}
 	return false
+}
+
+// keeper holds every string that tex.Buffer handed out (String) or was handed (WriteString, NewBufferString)
+// together with a private copy of its bytes taken at that moment. A Go string never changes: after every later
+// step of the case each of them must still read as it did, whatever was done to the buffer since (writes through
+// the slices of Bytes and Next, ReWrite, Reset, Truncate and new writes over the old bytes). bytes.Buffer
+// copies in all three places. The harness itself never writes through the memory of a string; the slices it
+// writes through are the ones Bytes and Next returned.
+type keeper struct {
+	items []keptString
+	size  int
+}
+
+type keptString struct {
+	s      string
+	want   []byte
+	site   string
+	what   string
+	pinned bool // the constructor's argument is kept to the end
+}
+
+const (
+	maxKept     = 16
+	maxKeptSize = 24 << 20
+)
+
+func (k *keeper) add(site, what, s string, pinned bool) {
+	if len(s) == 0 {
+		return
+	}
+	k.items = append(k.items, keptString{s: s, want: []byte(s), site: site, what: what, pinned: pinned})
+	k.size += len(s)
+	for len(k.items) > maxKept || k.size > maxKeptSize {
+		j := 0
+		for j < len(k.items)-1 && k.items[j].pinned {
+			j++
+		}
+		if j == len(k.items)-1 {
+			break
+		}
+		k.size -= len(k.items[j].s)
+		k.items = append(k.items[:j], k.items[j+1:]...)
+	}
+}
+
+func (k *keeper) check() (site, msg string) {
+	for i := range k.items {
+		it := &k.items[i]
+		if it.s != string(it.want) {
+			return it.site, fmt.Sprintf("%s has changed (a string never changes; bytes.Buffer copies here): %s", it.what,
+				diffPair("then", it.want, "now", []byte(it.s)))
+		}
+	}
+	return "", ""
+}
+
+// bystander is one more live tex.Buffer made by the same constructor call as the one under test. It is
+// written by the harness only (Side operations) and must hold exactly what was written to it.
+type bystander struct {
+	b     *tex.Buffer
+	model []byte
+}
+
+func checkBystanders(bs []bystander) string {
+	for i := range bs {
+		l, got, pv := observe(bs[i].b)
+		switch {
+		case pv != nil:
+			return fmt.Sprintf("bystander %d: Len/Bytes panic: %v", i, pv)
+		case l != len(bs[i].model) || !bytes.Equal(got, bs[i].model):
+			return fmt.Sprintf("bystander %d (another tex.Buffer from the same constructor call, written by nobody but the harness's Side operations) no longer holds what was written to it: %s",
+				i, diffPair("written", bs[i].model, "holds", got))
+		}
+	}
+	return ""
 }
 
 // Exec runs the history on both buffers and compares after every step.
@@ -1313,12 +1501,27 @@ func Exec(c Case) *vkit.Result {
 		}
 		return res
 	}
-	ref, tb, why := construct(&c.Ctor, true)
+	ref, tb, ctorArg, why := construct(&c.Ctor, true)
 	if why != "" {
 		res.Skip(why)
 		return res
 	}
 	res.Class("ctor:" + c.Ctor.Kind)
+	var kept keeper
+	kept.add("NewBufferString/kept-argument", "the string that was handed to NewBufferString", ctorArg, true)
+	// the bystanders: made now, beside the buffer under test, and written a few bytes at once
+	sides := make([]bystander, min(max(c.Side, 1), 3))
+	for i := range sides {
+		data := payload(c.Ctor.P, c.Ctor.L, c.Ctor.S)
+		if c.Ctor.Kind != "bytes" && c.Ctor.Kind != "string" {
+			data = nil
+		}
+		sb, _ := constructTex(&c.Ctor, data)
+		sides[i] = bystander{b: sb, model: append([]byte{}, data...)}
+		first := []byte{0xD0 + byte(i), 0xE0 + byte(i), 0xF0 + byte(i)}
+		sb.Write(first)
+		sides[i].model = append(sides[i].model, first...)
+	}
 	if c.Ctor.Kind == "sized" {
 		if tb.Len() != 0 {
 			return res.Failf("NewSizedBuffer/len", "NewSizedBuffer(%d).Len() = %d, want 0 (contents %s)", c.Ctor.Size, tb.Len(), show(tb.Bytes()))
@@ -1330,10 +1533,18 @@ func Exec(c Case) *vkit.Result {
 	if msg := diffState(ref, tb); msg != "" {
 		return res.Failf("ctor/state", "after constructor %+v: %s", c.Ctor, msg)
 	}
-	d := newDriver(&c.Ctor, tb.Cap())
+	if msg := checkBystanders(sides); msg != "" {
+		return res.Failf("bystander/contents", "after constructor %+v (for every buffer): %s", c.Ctor, msg)
+	}
+	d := newDriver(&c, tb.Cap())
 	paths := map[string]bool{}
 	unreads := 0
+	lastAt := "the constructor"
 	for i := range c.Ops {
+		// what the previous step did to the strings in the harness's hands
+		if site, msg := kept.check(); site != "" {
+			return res.Failf(site, "after %s: %s", lastAt, msg)
+		}
 		op := &c.Ops[i]
 		lb := ref.Len()
 		if why := d.admit(op, lb); why != "" {
@@ -1341,6 +1552,33 @@ func Exec(c Case) *vkit.Result {
 			continue
 		}
 		at := fmt.Sprintf("step %d of %d, %s on %d unread bytes", i+1, len(c.Ops), describe(op), lb)
+		lastAt = at
+
+		if op.K == "Side" {
+			sb := &sides[max(op.N, 0)%len(sides)]
+			if len(sb.model)+op.L > maxSide {
+				res.Skip("Side beyond the length a bystander is filled to")
+				continue
+			}
+			p := payload(op.P, op.L, op.S)
+			sb.model = append(sb.model, p...)
+			if pv := func() (pv any) {
+				defer func() { pv = recover() }()
+				sb.b.Write(p)
+				return nil
+			}(); pv != nil {
+				return res.Failf("bystander/panic", "%s: Write on the bystander panics: %v", at, pv)
+			}
+			if msg := checkBystanders(sides); msg != "" {
+				return res.Failf("bystander/contents", "%s: %s", at, msg)
+			}
+			// the buffer under test was not touched
+			if msg := diffState(ref, tb); msg != "" {
+				return res.Failf("bystander/state", "%s (a write to ANOTHER tex.Buffer): afterwards %s", at, msg)
+			}
+			res.Class("side:written")
+			continue
+		}
 
 		if op.K == "ReWrite" {
 			// slice model over the storage: position off+j is unread byte j; exactly the
@@ -1385,6 +1623,38 @@ func Exec(c Case) *vkit.Result {
 		la := ref.Len()
 		stateSite := op.K + "/state"
 		switch op.K {
+		case "String":
+			if !to.panicked && len(to.str) > 0 {
+				kept.add("String/kept-result", fmt.Sprintf("the string that String() returned at step %d", i+1), to.str, false)
+				res.Class("kept:String-result")
+				keptClass(res, len(to.str))
+			}
+		case "WriteString":
+			if len(to.str) > 0 {
+				kept.add("WriteString/kept-argument", fmt.Sprintf("the string that was handed to WriteString at step %d", i+1), to.str, false)
+				res.Class("kept:WriteString-argument")
+				keptClass(res, len(to.str))
+				if lb == 0 && d.sh.nilBuf {
+					res.Class("kept:WriteString-argument-into-a-buffer-without-storage")
+				}
+			}
+		case "WriteSelf":
+			lo, hi := selfRange(op, lb)
+			switch {
+			case hi == lo:
+				res.Class("self:empty")
+			case lo == 0 && hi == lb:
+				res.Class("self:whole")
+			case lo == 0:
+				res.Class("self:prefix")
+			case hi == lb:
+				res.Class("self:suffix")
+			default:
+				res.Class("self:middle")
+			}
+			if hi-lo > d.sh.cap-(d.sh.off+lb) {
+				res.Class("self:forces-growth")
+			}
 		case "UnreadByte", "UnreadRune":
 			if d.reexposed(ref, la-lb) {
 				// the bytes put back were rewritten while consumed: tex.Buffer is judged against the model of them
@@ -1416,6 +1686,12 @@ func Exec(c Case) *vkit.Result {
 		}
 		classify(res, op, &ro, lb, la, &unreads)
 	}
+	if site, msg := kept.check(); site != "" {
+		return res.Failf(site, "after %s: %s", lastAt, msg)
+	}
+	if msg := checkBystanders(sides); msg != "" {
+		return res.Failf("bystander/contents", "at the end of the history: %s", msg)
+	}
 	for _, s := range res.Skipped {
 		if s == "UnreadByte after Grow (excluded by the property)" || s == "UnreadRune after Grow (excluded by the property)" {
 			res.Class("unread:skipped-after-grow")
@@ -1431,6 +1707,17 @@ func Exec(c Case) *vkit.Result {
 	}
 	res.NonTrivial = len(paths) >= 2 && unreads >= 1
 	return res
+}
+
+func keptClass(res *vkit.Result, n int) {
+	switch {
+	case n > 1<<20:
+		res.Class("kept:len>1MiB")
+	case n > 1024:
+		res.Class("kept:len>1024")
+	case n > 64:
+		res.Class("kept:len>64")
+	}
 }
 
 func classify(res *vkit.Result, op *Op, ro *outcome, lb, la int, unreads *int) {
@@ -1458,6 +1745,15 @@ func classify(res *vkit.Result, op *Op, ro *outcome, lb, la int, unreads *int) {
 	}
 	if la > 512 {
 		res.Class("len:>512")
+	}
+	if la > 1<<20 {
+		res.Class("len:>1MiB")
+	}
+	if la > 2<<20 {
+		res.Class("len:>2MiB")
+	}
+	if (op.K == "Write" || op.K == "WriteString" || op.K == "WriteSelf") && la-lb >= 1<<20 {
+		res.Class("write:single>=1MiB")
 	}
 	switch op.K {
 	case "WriteRune":
@@ -1542,7 +1838,7 @@ func classify(res *vkit.Result, op *Op, ro *outcome, lb, la int, unreads *int) {
 // Part is the one generated check of C11.
 var Part = &vkit.Part[Case]{
 	Property: Property, Name: "differential",
-	Rule:  "rapid: a constructor (zero value | NewBuffer(bytes with spare capacity) | NewBufferString | NewSizedBuffer(k, k up to 65536) vs a bytes.Buffer grown to k | rarely a nil *Buffer, on which String() must give \"<nil>\") and 1-80 operations out of Write, WriteString, WriteByte, WriteRune (ASCII, 2/3/4-byte, surrogates, negative, > MaxRune), Read(len 0..>Len), ReadByte, ReadRune (valid and invalid UTF-8 payload patterns), UnreadByte, UnreadRune, Next(n incl. > Len, negative and MaxInt; half of the time the returned slice is written through), Truncate(n incl. invalid), Reset, Grow(n incl. negative and unallocatably large), ReadFrom(scripted reader: chunks below/at/above MinRead, (0,nil), io.EOF with data, early error, an error wrapping io.EOF, negative count; the reader uses the rest of its destination as scratch space), WriteTo(scripted writer: full, short write, error, over-count), Len, Bytes (sometimes written through), String, ReWrite(pos,p) at storage positions (consumed bytes not yet slid away come first: inside the unread part after partial reads, inside the consumed prefix, across the read offset). The generator folds over a real bytes.Buffer and a prediction of the storage layout, so that sizes aim at the exact fit of the spare tail, one byte more, the largest request that still slides down, one more (reallocate) and the 64-byte small buffer; reads are followed by Unread*/Grow with raised probability. After every step results, error nil-ness and error identity (io.EOF, io.ErrShortWrite, the scripted reader's / writer's own error values), panic-or-not with equal string panic values and ErrTooLarge on both sides or on neither, and (Len, Bytes) of both buffers are compared; the slice handed to Write is overwritten after the call. ReWrite is judged against a slice model over the storage (storage position off+j is unread byte j, off = consumed bytes still in front, known from the same bookkeeping; exactly the addressed unread bytes change). Unread* is skipped (and counted) while a Grow is the latest call that could have moved the data; after a ReWrite changed the consumed bytes that an Unread* re-exposes, they are judged against a model of those bytes (the harness saw them being read); ReWrite is skipped when it would reach beyond the storage or the layout bookkeeping was contradicted by Cap(). Non-trivial: the history exercised >= 2 different growth paths of tex.Buffer (reset-if-empty, reslice, small allocation, slide down, reallocate; classified from Cap() changes and consumed-byte bookkeeping) and >= 1 successful Unread*; distinct = distinct case JSON",
+	Rule:  "rapid: a constructor (zero value | NewBuffer(bytes with spare capacity) | NewBufferString | NewSizedBuffer(k, k up to 65536) vs a bytes.Buffer grown to k | rarely a nil *Buffer, on which String() must give \"<nil>\") and 1-80 operations out of Write, WriteString, WriteByte, WriteRune (ASCII, 2/3/4-byte, surrogates, negative, > MaxRune), Read(len 0..>Len), ReadByte, ReadRune (valid and invalid UTF-8 payload patterns), UnreadByte, UnreadRune, Next(n incl. > Len, negative and MaxInt; half of the time the returned slice is written through), Truncate(n incl. invalid), Reset, Grow(n incl. negative and unallocatably large), ReadFrom(scripted reader: chunks below/at/above MinRead, (0,nil), io.EOF with data, early error, an error wrapping io.EOF, negative count; the reader uses the rest of its destination as scratch space), WriteTo(scripted writer: full, short write, error, over-count), Len, Bytes (sometimes written through), String, ReWrite(pos,p) at storage positions (consumed bytes not yet slid away come first: inside the unread part after partial reads, inside the consumed prefix, across the read offset). The generator folds over a real bytes.Buffer and a prediction of the storage layout, so that sizes aim at the exact fit of the spare tail, one byte more, the largest request that still slides down, one more (reallocate) and the 64-byte small buffer; reads are followed by Unread*/Grow with raised probability. After every step results, error nil-ness and error identity (io.EOF, io.ErrShortWrite, the scripted reader's / writer's own error values), panic-or-not with equal string panic values and ErrTooLarge on both sides or on neither, and (Len, Bytes) of both buffers are compared; the slice handed to Write is overwritten after the call. ReWrite is judged against a slice model over the storage (storage position off+j is unread byte j, off = consumed bytes still in front, known from the same bookkeeping; exactly the addressed unread bytes change). Unread* is skipped (and counted) while a Grow is the latest call that could have moved the data; after a ReWrite changed the consumed bytes that an Unread* re-exposes, they are judged against a model of those bytes (the harness saw them being read); ReWrite is skipped when it would reach beyond the storage or the layout bookkeeping was contradicted by Cap(). Every string handed to WriteString / NewBufferString and every string String() returned is kept with a private copy of its bytes and compared after every later step (a string never changes); one more tex.Buffer from the same constructor call is written three bytes at the start and must hold exactly its own contents at the end. Non-trivial: the history exercised >= 2 different growth paths of tex.Buffer (reset-if-empty, reslice, small allocation, slide down, reallocate; classified from Cap() changes and consumed-byte bookkeeping) and >= 1 successful Unread*; distinct = distinct case JSON",
 	Quick: 30000, Thorough: 60000,
 	Gen: Gen, Exec: Exec,
 }
